@@ -1,7 +1,7 @@
 (* Dispatch.v — single entry point [run : sx -> sx] used by the OCaml driver
    and by the in-Coq extraction self-check.  A case is [L [A fn; arg]]. *)
 From Coq Require Import List NArith Bool.
-From PTA Require Import Sx Glob.
+From PTA Require Import Sx Glob Wire.
 Import ListNotations.
 Open Scope N_scope.
 
@@ -10,5 +10,9 @@ Definition run (c : sx) : sx :=
   | L [A 1; arg] => run_glob_convert arg
   | L [A 2; arg] => run_glob_match arg
   | L [A 3; arg] => run_glob_table arg
+  | L [A 10; arg] => run_assert_applies arg
+  | L [A 11; arg] => run_q_between arg
+  | L [A 12; arg] => run_other true arg
+  | L [A 13; arg] => run_other false arg
   | _ => sx_err
   end.
